@@ -69,6 +69,9 @@ pub enum Kernel {
     Probe,
     /// harness cross-check interpolator owning one kernel of each kind
     Cross,
+    /// a user-written interpolator of exactly `sinc_len` taps (any length, odd included) through the public
+    /// `new_with_interpolator`: the harness linear kernel without the window check
+    Custom,
 }
 
 #[derive(Clone, Debug, Serialize, Deserialize, PartialEq)]
@@ -112,6 +115,9 @@ impl Config {
     }
     /// rounded-up sinc length as the library computes it
     pub fn sinc_len_rounded(&self) -> usize {
+        if self.kernel == Kernel::Custom {
+            return self.sinc_len;
+        }
         8 * (((self.sinc_len as f32) / 8.0).ceil() as usize)
     }
     /// filter length used in accounting bounds
@@ -138,6 +144,8 @@ pub enum Signal {
     Const { v: f64 },
     /// noise with 60 decades of dynamic range (kernel checks)
     Wide { seed: u64 },
+    /// silence with sparse NaNs and finite impulses (kernels must agree on NaN-ness too)
+    NanSparse { seed: u64 },
     /// noise of uniformly tiny amplitude `scale` (subnormal range of the sample type: flush-to-zero differences)
     Tiny { seed: u64, scale: f64 },
 }
@@ -168,6 +176,14 @@ impl Signal {
                 acc
             }
             Signal::Const { v } => *v,
+            Signal::NanSparse { seed } => {
+                let h = mix(*seed ^ n ^ ((ch as u64) << 44));
+                match h % 23 {
+                    0 => f64::NAN,
+                    1 | 2 => noise(*seed, ch, n),
+                    _ => 0.0,
+                }
+            }
             Signal::Tiny { seed, scale } => noise(*seed, ch, n) * *scale,
             Signal::Wide { seed } => {
                 let e = (mix(seed ^ 0x77 ^ n ^ ((ch as u64) << 40)) % 61) as i32 - 30;
@@ -270,7 +286,17 @@ pub enum ChunkVal {
 pub enum Op {
     /// one processing call through `path`.  `valid`: number of real frames supplied
     /// (None = a full chunk; Some(k) = k frames then zeros; for partial paths Some(0) = `None` input).
-    Process { path: Path, valid: Option<u32>, slack_in: u16, slack_out: u16, slices: bool },
+    /// `ragged` != 0: the channels get different numbers of real frames (some shorter, and on partial paths some
+    /// longer than needed) as a deterministic function of (ragged, channel).
+    Process {
+        path: Path,
+        valid: Option<u32>,
+        slack_in: u16,
+        slack_out: u16,
+        slices: bool,
+        #[serde(default)]
+        ragged: u8,
+    },
     /// in-range ratio change. `rel` is relative to the original ratio.
     SetRatio { rel: f64, ramp: bool, relative_api: bool },
     /// valid chunk-size change (n clipped to 1..=max at execution)
@@ -287,7 +313,7 @@ pub enum Op {
 
 impl Op {
     pub fn process() -> Op {
-        Op::Process { path: Path::IntoBuffer, valid: None, slack_in: 0, slack_out: 0, slices: false }
+        Op::Process { path: Path::IntoBuffer, valid: None, slack_in: 0, slack_out: 0, slices: false, ragged: 0 }
     }
     pub fn kind_code(&self) -> u8 {
         match self {
@@ -334,7 +360,15 @@ pub enum Twin {
     /// C15: list of (kernel, cpu_mask) variants to run
     Kernels { variants: Vec<(Kernel, u8)> },
     /// C18: instances (config, signal, ops) and the schedule
-    Threads { threads: u8, instances: Vec<InstanceSpec>, schedule: Vec<(u8, u8, i8)> },
+    /// `ctor_faults`: (step, thread, kind) -- at that step the thread makes a constructor call that fails
+    /// (returns Err or panics with capacity overflow) while the other instances are alive
+    Threads {
+        threads: u8,
+        instances: Vec<InstanceSpec>,
+        schedule: Vec<(u8, u8, i8)>,
+        #[serde(default)]
+        ctor_faults: Vec<(u32, u8, u8)>,
+    },
 }
 
 #[derive(Clone, Debug, Serialize, Deserialize, PartialEq)]
@@ -344,6 +378,9 @@ pub struct InstanceSpec {
     pub ops: Vec<Op>,
     /// thread the instance is constructed on
     pub home: u8,
+    /// number of scheduled steps after which the instance is constructed (0 = before the first step)
+    #[serde(default)]
+    pub born: u32,
 }
 
 #[derive(Clone, Debug, Serialize, Deserialize, PartialEq)]
